@@ -702,7 +702,7 @@ impl<'e> Sweep<'e> {
             let _ = other.verify_issued(&res, Overclaim::Trim);
             let _ = b.verify_covered(&IpResources::blocks(other.clone()));
         });
-        self.run("C04.reencode", "IpBlocks::encode_ref", || { b.encode_ref().to_captured(Mode::Der).len() });
+        self.run("C04.reencode.resources", "IpBlocks::encode_ref", || { b.encode_ref().to_captured(Mode::Der).len() });
     }
 
     fn as_blocks(&mut self, b: &AsBlocks) {
@@ -737,7 +737,7 @@ impl<'e> Sweep<'e> {
             let _ = other.verify_issued(&res, Overclaim::Trim);
             let _ = b.verify_covered(&AsResources::blocks(other.clone()));
         });
-        self.run("C04.reencode", "AsBlocks::encode_ref", || { b.encode_ref().to_captured(Mode::Der).len() });
+        self.run("C04.reencode.resources", "AsBlocks::encode_ref", || { b.encode_ref().to_captured(Mode::Der).len() });
     }
 
     fn resource_cert(&mut self, rc: &ResourceCert) {
@@ -757,7 +757,7 @@ impl<'e> Sweep<'e> {
             let _ = k.verify(b"C04", &sig);
             let _ = k == k;
         });
-        if self.run("C04.reencode", "PublicKey::to_info_bytes", || k.to_info_bytes().len()).is_some() {
+        if self.run("C04.reencode.key", "PublicKey::to_info_bytes", || k.to_info_bytes().len()).is_some() {
             self.run("C04.serde", "PublicKey serde", || {
                 if let Ok(s) = serde_json::to_string(k) { let _ = serde_json::from_str::<PublicKey>(&s); }
             });
@@ -876,10 +876,8 @@ impl<'e> Sweep<'e> {
             ok
         });
         if ok == Some(true) { self.mark("Crl::verify_signature ok") }
-        if self.run("C04.reencode", "Crl::to_captured", || {
-            let _ = crl.as_cert_list().encode_ref().to_captured(Mode::Der);
-            crl.to_captured().len()
-        }).is_some() {
+        self.run("C04.reencode.content", "TbsCertList::encode_ref", || crl.as_cert_list().encode_ref().to_captured(Mode::Der).len());
+        if self.run("C04.reencode", "Crl::to_captured", || crl.to_captured().len()).is_some() {
             self.run("C04.serde", "Crl serde", || {
                 if let Ok(s) = serde_json::to_string(crl) { let _ = serde_json::from_str::<Crl>(&s); }
             });
@@ -895,7 +893,7 @@ impl<'e> Sweep<'e> {
                 if let Ok(s) = serde_json::to_string(m) { let _ = serde_json::from_str::<Manifest>(&s); }
             });
         }
-        self.run("C04.reencode", "ManifestContent::encode_ref", || m.content().encode_ref().to_captured(Mode::Der).len());
+        self.run("C04.reencode.content", "ManifestContent::encode_ref", || m.content().encode_ref().to_captured(Mode::Der).len());
         self.run("C04.mft.accessors", "ManifestContent accessors", || {
             let _ = (m.manifest_number().to_string(), m.this_update(), m.next_update(), m.file_hash_alg(), m.len(), m.is_empty(), m.is_stale());
         });
@@ -937,7 +935,7 @@ impl<'e> Sweep<'e> {
                 if let Ok(s) = serde_json::to_string(r) { let _ = serde_json::from_str::<Roa>(&s); }
             });
         }
-        self.run("C04.reencode", "RouteOriginAttestation::encode_ref", || r.content().encode_ref().to_captured(Mode::Der).len());
+        self.run("C04.reencode.content", "RouteOriginAttestation::encode_ref", || r.content().encode_ref().to_captured(Mode::Der).len());
         self.check("C04.roa.addrs", "RoaIpAddresses::iter", || {
             let c = r.content();
             let _ = (c.as_id().to_string(), c.v4_addrs().is_empty(), c.v6_addrs().is_empty());
@@ -989,7 +987,7 @@ impl<'e> Sweep<'e> {
                 if let Ok(s) = serde_json::to_string(a) { let _ = serde_json::from_str::<Aspa>(&s); }
             });
         }
-        self.run("C04.reencode", "AsProviderAttestation::encode_ref", || a.content().encode_ref().to_captured(Mode::Der).len());
+        self.run("C04.reencode.content", "AsProviderAttestation::encode_ref", || a.content().encode_ref().to_captured(Mode::Der).len());
         self.check("C04.aspa.providers", "ProviderAsSet::iter", || {
             let c = a.content();
             let _ = (c.customer_as().to_string(), c.provider_as_set().len());
@@ -1017,7 +1015,7 @@ impl<'e> Sweep<'e> {
     fn rta(&mut self, r: &rta::Rta) {
         let env = self.env;
         self.run("C04.reencode", "Rta::to_captured", || r.to_captured().len());
-        self.run("C04.reencode", "ResourceTaggedAttestation::encode_ref", || r.content().encode_ref().to_captured(Mode::Der).len());
+        self.run("C04.reencode.content", "ResourceTaggedAttestation::encode_ref", || r.content().encode_ref().to_captured(Mode::Der).len());
         self.run("C04.rta.accessors", "ResourceTaggedAttestation accessors", || {
             let c = r.content();
             let _ = (c.subject_keys().len(), c.digest_algorithm(), c.message_digest().as_ref().len());
@@ -1612,14 +1610,29 @@ struct PoolState {
     dead_count: Mutex<HashMap<(SpaceId, usize, usize), u32>>,
     skipped: Mutex<BTreeMap<SpaceId, u64>>,
     coarse: Mutex<Vec<Death>>,
+    /// per space: (seconds, indexes, tasks) of completed tasks, for the wall budgets
+    stats: Mutex<HashMap<SpaceId, (f64, u64, u64)>>,
 }
 
 const DEATH_CAP: u32 = 3;
 
 impl PoolState {
+    /// Wall budget of a batch: a fixed ceiling, lowered to a generous
+    /// multiple of what batches of this space have been taking once that is
+    /// known (so that isolating a hang does not take minutes per step).
     fn timeout(&self, t: &Task, bisecting: bool) -> Duration {
         if t.sp == SpaceId::SelfTest { return Duration::from_millis(1500) }
-        if bisecting { Duration::from_secs(30) } else { Duration::from_secs(if self.thorough { 180 } else { 90 }) }
+        let ceiling = if bisecting { 30.0 } else if self.thorough { 180.0 } else { 90.0 };
+        let est = self.stats.lock().unwrap().get(&t.sp).and_then(|&(secs, idx, n)| if n >= 4 && idx > 0 { Some(secs / idx as f64 * t.size() as f64) } else { None });
+        let secs = match est {
+            Some(e) => if bisecting { (e * 30.0).clamp(4.0, ceiling) } else { (e * 60.0).clamp(20.0, ceiling) },
+            None => ceiling,
+        };
+        Duration::from_secs_f64(secs)
+    }
+    /// The single input that is about to be blamed gets a fixed generous budget.
+    fn timeout_single(&self, t: &Task) -> Duration {
+        if t.sp == SpaceId::SelfTest { Duration::from_millis(1500) } else { Duration::from_secs(30) }
     }
 
     fn key(t: &Task) -> (SpaceId, usize, usize) { (t.sp, t.seed, t.ep.idx()) }
@@ -1655,7 +1668,7 @@ impl PoolState {
             }
         }
         // confirm the single input on a fresh worker
-        match run_on(slot, &cur, self.timeout(&cur, true), self.thorough) {
+        match run_on(slot, &cur, self.timeout_single(&cur), self.thorough) {
             RunOutcome::Done(r) => {
                 self.results.lock().unwrap().push((cur.clone(), r));
                 self.infra.lock().unwrap().push(format!("input {} of {} seed {} ended a worker ({how}) but not when run alone", cur.lo, cur.sp.code(), cur.seed));
@@ -1686,7 +1699,13 @@ impl PoolState {
                             if el > 3.0 { eprintln!("c04 trace: slow task {:?} {:.1}s", t, el) }
                         }
                         match outcome {
-                            RunOutcome::Done(r) => self.results.lock().unwrap().push((t, r)),
+                            RunOutcome::Done(r) => {
+                                let mut stt = self.stats.lock().unwrap();
+                                let e = stt.entry(t.sp).or_insert((0.0, 0, 0));
+                                e.0 += t_task.elapsed().as_secs_f64(); e.1 += t.size(); e.2 += 1;
+                                drop(stt);
+                                self.results.lock().unwrap().push((t, r))
+                            }
                             RunOutcome::Died(how) => {
                                 if self.poisoned(&t) { self.coarse.lock().unwrap().push(Death { task: t, hung: false, how }) } else { self.bisect(&mut slot, t, false, how) }
                             }
@@ -1796,7 +1815,7 @@ fn main() {
         match parsed {
             None => ctx.machinery_error(format!("cannot parse replay witness {wit}")),
             Some(t) => {
-                let st = PoolState { queue: Mutex::new(VecDeque::from(vec![t])), results: Mutex::new(vec![]), deaths: Mutex::new(vec![]), infra: Mutex::new(vec![]), thorough, times: Mutex::new(BTreeMap::new()), t0: Instant::now(), dead_count: Mutex::new(HashMap::new()), skipped: Mutex::new(BTreeMap::new()), coarse: Mutex::new(Vec::new()) };
+                let st = PoolState { queue: Mutex::new(VecDeque::from(vec![t])), results: Mutex::new(vec![]), deaths: Mutex::new(vec![]), infra: Mutex::new(vec![]), thorough, times: Mutex::new(BTreeMap::new()), t0: Instant::now(), dead_count: Mutex::new(HashMap::new()), skipped: Mutex::new(BTreeMap::new()), coarse: Mutex::new(Vec::new()), stats: Mutex::new(HashMap::new()) };
                 st.drive(1);
                 for e in st.infra.lock().unwrap().iter() { ctx.machinery_error(e.clone()) }
                 for (_, r) in st.results.lock().unwrap().iter() {
@@ -1882,7 +1901,7 @@ fn main() {
 
     //--- run
     let ntasks = plan.tasks.len();
-    let st = PoolState { queue: Mutex::new(VecDeque::from(plan.tasks)), results: Mutex::new(Vec::new()), deaths: Mutex::new(Vec::new()), infra: Mutex::new(Vec::new()), thorough, times: Mutex::new(BTreeMap::new()), t0: Instant::now(), dead_count: Mutex::new(HashMap::new()), skipped: Mutex::new(BTreeMap::new()), coarse: Mutex::new(Vec::new()) };
+    let st = PoolState { queue: Mutex::new(VecDeque::from(plan.tasks)), results: Mutex::new(Vec::new()), deaths: Mutex::new(Vec::new()), infra: Mutex::new(Vec::new()), thorough, times: Mutex::new(BTreeMap::new()), t0: Instant::now(), dead_count: Mutex::new(HashMap::new()), skipped: Mutex::new(BTreeMap::new()), coarse: Mutex::new(Vec::new()), stats: Mutex::new(HashMap::new()) };
     eprintln!("c04: planned in {:.1}s", t_start.elapsed().as_secs_f64());
     st.drive(nworkers);
     eprintln!("c04: driven in {:.1}s {:?}", t_start.elapsed().as_secs_f64(), st.times.lock().unwrap());
